@@ -86,6 +86,62 @@
 // content at a committed version depends on the last write anywhere in the DAG.  The partition is derived
 // from the ROI spans the statement lists; the check therefore counts it as versioned content.
 //
+// ## F3 — labelmap GET blocks answers differently from one request to the next at a committed merge node (1 signature)
+//
+//	C02/stability/lm/blocks/unstable-read
+//
+// First reported by the thorough tier as C02/stability/lm/blocks/changed-by/{branch,newinst,annmove,commit,merge,
+// kvput}: the operation in the signature was whatever came next; no operation changes anything (the mismatch
+// also shows between the two reads right after the node's own commit).  Minimal failing history
+// (replays/C02-found-stability-lm-blocks-unstable-read.json; the first five operations, the rest only makes
+// the check look again, since the answer depends on goroutine scheduling — about one look in seven differs):
+//
+//	{"pre":[],"post":[{"kind":"branch","node":0},{"kind":"lmraw","node":0,"a":7},{"kind":"commit"},{"kind":"merge"},{"kind":"commit"}]}
+//
+// V holds the eight label blocks of the fixture and is committed; a sibling branch off the root writes block
+// (1,1,1) and is committed; POST repo/<root>/merge of the two is accepted (conflict-free merges are not
+// checked, conflicts are reported lazily when the key is read: datastore/repo_local.go:2010-2012, :2183,
+// keyvalue_test.go:770); the merge child is committed.  GET lm/blocks/32_32_32/0_0_0?compression=uncompressed
+// at the merge child then answers, from one request to the next: 200 with 6 complete block records and the
+// text "unable to GET data ...: found multiple kv for key ... among parents"; 200 with 5, 4 or 2 records and
+// the text; 200 with 2 records, the 16-byte header of a third and the text; 200 with 5 records and no text; 400
+// with the text only.  Which records come first also varies (normalised by the check).
+//
+// Analysis.  sendBlocksVolume (/repo/datatype/labelmap/blocks.go:496-607) starts a sender goroutine that
+// writes to the http.ResponseWriter (:518-530) and one transcoder goroutine per block read (:581-585).  When
+// ProcessRange fails on the conflicting key it returns at once (:589-591) without wg.Wait() / close(ch); the
+// handler (/repo/datatype/labelmap/handlers.go:232-234) writes the error text while the sender and the
+// transcoders are still writing blocks.  The race detector reports 111 races for the minimal history
+// (server.BadRequest in the handler goroutine against writeBlock in sendBlocksVolume.func1, on
+// mutil.basicWriter and the recorder); the channel is never closed, so the sender and the late transcoders
+// leak; with a real net/http connection the late writes go to a ResponseWriter whose handler has returned.
+// sendBlocksSpecific has the same shape (:448-468).  Patch: fix-stability.patch (wait and close before every
+// return after the sender was started); with it the answer is the same on every request (the six blocks before
+// the conflicting key, then the text), 0 labelmap races, and 4 x 200 histories pass under load.
+// Without the patch the signature can be listed; the read lm/blocks is then left out of the snapshots.
+//
+// ## F4 — neuronjson: a version committed while it was the head of master changes its answers when the head moves on (1 signature)
+//
+//	C02/stability/nj/all/changed-by/newversion
+//
+// Same root cause as the listed C03 finding C03/neuronjson/memory-stale-after-head-moved-to-merge-lineage.
+// First reported by the thorough tier as .../changed-by/lmmerge: the write needed an open node, the harness
+// created one with POST newversion, and that is what moved the head (implicit children are now verified on
+// their own).  Minimal failing history (replays/C02-known-stability-nj-all-changed-by-newversion.json):
+//
+//	{"pre":[],"post":[{"kind":"newversion","node":1},{"kind":"commit"},{"kind":"merge"},{"kind":"njput","a":1,"b":2},
+//	                  {"kind":"commit"},{"kind":"newversion","node":3},{"kind":"commit"},{"kind":"newversion","node":4}]}
+//
+// V (node 1) and its child (node 2) are committed and merged (node 3, filed on master but not its head:
+// datastore/repo_local.go:2507-2530); POST nj/key/2 {"a":"w2","z":2} at node 3 goes to the store only; node 3 is
+// committed; POST newversion on node 3 makes node 4 the head of master, so node 4 is answered from the one
+// in-memory head database (datatype/neuronjson/memstore.go:26-48), which never saw the write at node 3:
+// GET nj/all at node 4 shows body 2 with "a":"v1"; node 4 is committed with that answer; POST newversion on node
+// 4 moves the head to node 5 and node 4 is answered from the store: "a":"w2","z":2.  The committed version
+// reads differently after an operation that only created a child.  Not a small patch (see the C03 entry); when
+// the signature is listed the generator creates children of merge nodes with POST branch, which leaves the head
+// of master alone (sigHeadJump in c02_stability_test.go), and every neuronjson read stays in the snapshots.
+//
 // # Notes for the maintainer (not C02 violations)
 //
 // N1 (labelmap, branch isolation — reported to the maintainer as a lead for C08/C12/C13).  Ingesting voxels
@@ -121,6 +177,11 @@
 // requests made the recover middleware answer "Panic detected": POST|DELETE lm/proximity, lm/index, lm/merge
 // and lb/blocks without the URL parts they index (parts[4]); GET img/isotropic/... after POST resolution with
 // body `[]` (instance-level VoxelSize becomes empty).
+//
+// N6 (neuronjson POST key, seen by the race detector while working on F3).  The Kafka-logging goroutine of
+// POST key assigns the handler's own err variable (`if err = d.PublishKafkaMsg(jsonmsg)`,
+// /repo/datatype/neuronjson/neuronjson.go:2487) while the handler assigns the result of PutData to it (:2497)
+// and tests it: a failed PutData can be reported as success.  `if err := ...` in the goroutine removes it.
 //
 // N5 (answers whose order is not content).  Found by the fixture self-test (TestC02Fixtures) and normalised
 // before comparison: labelmap/labelarray GET blocks and specificblocks (records in worker order), sparsevol
